@@ -107,6 +107,13 @@ class Mon(Monitor):
                     out.append(V('notify', 'onDisconnection-wrong-reason', 'not the reason passed to connectionLost'))
                 else:
                     self.see('notified')
+                    if c.n_connects and not c.clean:
+                        for r in w.reqs:
+                            if r.addr == c.addr and r.kind == 'pub' and r.qos and r.failed and r.fires[0][0] >= c.lost_step and \
+                                    r.call_step < c.lost_step and w.session_alive(r) and r.fires[0][0] <= w.step:
+                                out.append(V('notify', 'persistent-request-failed-by-loss/%s' % r.fires[0][2],
+                                             'request %d of a persistent session failed with %s when its connection was lost' % (
+                                                 r.idx, r.fires[0][2])))
                     if c.clean and c.n_connects:
                         for r in w.reqs:
                             if r.addr == c.addr and r.conn == c.idx and r.kind in ('pub', 'sub', 'unsub') and r.pending and \
